@@ -167,6 +167,37 @@ def rows_prop_sampled(positions):
     return prop
 
 
+def rows_after_run_prop(e):
+    """the loads table echoes the hourly loads the caller supplied also after the exchanger has been simulated (hourly and hybrid, 24
+    months on one year of loads): same number of rows, same values, calendar labels"""
+    from ghedesigner.enums import TimestepType
+    from ghedesigner.output import OutputManager
+
+    from . import c13
+    given = [float(i % 97) for i in range(N_LOADS)]
+    loads = list(given)
+    ghe = c13.mk_ghe(e, 'a', end_month=24, loads=loads)
+    ghe.bhe.b.H = e.real('H', 20, 400)
+    ghe.simulate(TimestepType.HOURLY)
+    ghe.simulate(TimestepType.HYBRID)
+    om = OutputManager.__new__(OutputManager)
+    rows = om.get_hourly_loading_data(NS(ghe=ghe))
+    if len(rows) != N_LOADS + 1 or len(loads) != N_LOADS:
+        return False
+    for kk in (0, 1, 23, 24, 743, 744, 8735, 8759):
+        t = datetime.datetime(2019, 1, 1) + datetime.timedelta(hours=kk)
+        r = rows[kk + 1]
+        if not (int(r[0]) == t.month and int(r[1]) == t.day and int(r[2]) == t.hour + 1 and int(r[3]) == kk and r[4] == given[kk]):
+            return False
+    return True
+
+
+def rows_after_run_setup():
+    from . import c13
+    c13.ghe_setup()
+    _setup()
+
+
 def rows_replay(model, notes):
     kk = notes.get('pos', model.get('k'))
     v = float(model['v'])
@@ -274,4 +305,6 @@ def units(tier, seed):
         pos = sorted({0, 1, 23, 24, 743, 744, 1415, 1416, 8735, 8736, 8759} | {rnd.randrange(8760) for _ in range(13)})
         us.append(Unit('loads_table_sampled', rows_prop_sampled(pos), rows_replay, _setup, F[2:3],
                        'symbolic load value at %d positions (month/day/year boundaries + seeded), value all reals' % len(pos)))
+    us.append(Unit('loads_table_after_hourly_run', rows_after_run_prop, None, rows_after_run_setup, F[2:3] + ['ground_heat_exchangers.py:GHE.simulate'],
+                   'one year of loads, 24-month hourly and hybrid simulation on the exchanger first; height symbolic', stubs=['_simulate_detailed -> uninterpreted kernel']))
     return us
